@@ -476,8 +476,71 @@ func c04Concurrent(c *fw.Ctx, round int) {
 	}
 }
 
+// c04AckVsSweep: 48 registrations whose deadlines fall into ONE second; six goroutines acknowledge them
+// while a sweep for exactly that second runs. Every registration ends with exactly one outcome
+// (acknowledged or expired); none may be lost or fire twice.
+func c04AckVsSweep(c *fw.Ctx, part int) {
+	rounds := c.Pick(400, 4000)
+	bad := 0
+	var witness string
+	for r := 0; r < rounds; r++ {
+		q := ack.NewQueue()
+		const n = 48
+		cnt := make([]int32, n)
+		d := c04T0.Add(time.Duration(2+r%3) * time.Second)
+		for i := 0; i < n; i++ {
+			i := i
+			q.Insert(fmt.Sprintf("s%d", i%4), &packet.Publish{Header: &packet.Header{Qos: 1}, MessageId: int32(1 + i/4)}, d.Add(time.Duration(i%400)*time.Millisecond), func(expired bool, stored, received packet.Packet) {
+				atomic.AddInt32(&cnt[i], 1)
+			})
+		}
+		start := make(chan struct{})
+		var wg sync.WaitGroup
+		for g := 0; g < 6; g++ {
+			wg.Add(1)
+			go func(g int) {
+				defer wg.Done()
+				<-start
+				for i := g; i < n; i += 6 {
+					if (i+r)%3 == 0 {
+						continue // left to the sweep
+					}
+					q.Ack(fmt.Sprintf("s%d", i%4), &packet.PubAck{Header: &packet.Header{}, MessageId: int32(1 + i/4)})
+				}
+			}(g)
+		}
+		wg.Add(1)
+		go func() {
+			defer wg.Done()
+			<-start
+			if r%2 == 0 {
+				runtime.Gosched()
+			}
+			q.Expire(d.Add(2 * time.Second))
+		}()
+		close(start)
+		wg.Wait()
+		q.Expire(d.Add(100000 * time.Second))
+		q.Expire(d.Add(200000 * time.Second))
+		for i := 0; i < n; i++ {
+			if k := atomic.LoadInt32(&cnt[i]); k != 1 {
+				bad++
+				if witness == "" {
+					witness = fmt.Sprintf("round %d: registration %d (session s%d id %d) ended with %d outcomes", r, i, i%4, 1+i/4, k)
+				}
+			}
+		}
+	}
+	c.Observe("ack_vs_sweep_rounds", rounds)
+	c.Case(fmt.Sprintf("ack-vs-sweep|%d", part), true)
+	if bad > 0 {
+		c.Violation("queue-concurrent:outcome-count", fmt.Sprintf("acknowledgements racing the sweep of their own second: %d registrations without exactly one outcome in %d rounds; e.g. %s", bad, rounds, witness),
+			map[string]interface{}{"bad": bad, "rounds": rounds, "example": witness})
+	}
+}
+
 func runC04(c *fw.Ctx) {
-	c.Rule = "(i) seeded sequential histories of 5-40 register/acknowledge/sweep operations on the real ack.Queue over 2-3 sessions x identifiers 1-4, deadlines and sweep times drawn from a small set of offsets so that equal, same-second (x.499/x.500/x.501), past and future deadlines collide; some registrations re-register themselves from their expiry callback as the writer does; oracle = map (session,id) -> {expected type, deadline} with a +-1 s band for 'honoured to the second', and exactly-one-outcome after final far-future sweeps. (ii) the expiration.List interface alone, both implementations (hook H4), against a multiset model. (iii) register/acknowledge from 8-16 goroutines on shared keys while a sweeper runs; outcome counting only. distinct = operation sequence; non-trivial = history contains >=2 registrations whose deadlines fall in the same second, or a wrong-type/unknown acknowledgement, or a duplicate registration"
+	c.Rule = "(i) seeded sequential histories of 5-40 register/acknowledge/sweep operations on the real ack.Queue over 2-3 sessions x identifiers 1-4, deadlines and sweep times drawn from a small set of offsets so that equal, same-second (x.499/x.500/x.501), past and future deadlines collide; some registrations re-register themselves from their expiry callback as the writer does; oracle = map (session,id) -> {expected type, deadline} with a +-1 s band for 'honoured to the second', and exactly-one-outcome after final far-future sweeps. (ii) the expiration.List interface alone, both implementations (hook H4), against a multiset model. (iii) register/acknowledge from 8-16 goroutines on shared keys while a sweeper runs, and acknowledgements from six goroutines racing the sweep of the very second their deadlines fall into; outcome counting only. distinct = operation sequence; non-trivial = history contains >=2 registrations whose deadlines fall in the same second, or a wrong-type/unknown acknowledgement, or a duplicate registration"
 	c.Assume("'honoured to the second': an entry must expire at a sweep >= deadline+1 s, must not at a sweep <= deadline-1 s; inside the band either outcome is accepted and the model follows the implementation")
 	c.Assume("identifier 0 is not used (rejected by design)")
 	workers := runtime.NumCPU()
@@ -540,6 +603,12 @@ func runC04(c *fw.Ctx) {
 	for r := 0; r < rounds; r++ {
 		c04Concurrent(c, r)
 	}
+	var wg2 sync.WaitGroup
+	for p := 0; p < 4; p++ {
+		wg2.Add(1)
+		go func(p int) { defer wg2.Done(); c04AckVsSweep(c, p) }(p)
+	}
+	wg2.Wait()
 }
 
 func c04NonTrivial(ops []c04Op) bool {
